@@ -158,8 +158,11 @@ func codecSignature(p *Prog, fn *ssa.Function, partial *types.Named, version int
 		return f.Pkg != nil && f.Pkg.Pkg.Path() == pkgPath("primitive") && recvNamed(f) != nil && recvNamed(f).Obj().Name() == "ProtocolVersion"
 	}
 	emit := func(st *State, el string) { st.aux["cur"] = st.aux["cur"] + el + " " }
+	var structural func(h *ssa.Function) bool
+	inScope := func(f *ssa.Function) bool { return f == fn || structural(f) }
 	// values that make up the returned length (EncodedLength): backward slice from the result
 	lenVals := map[ssa.Value]bool{}
+	lenRoots := func() {}
 	if fn.Name() == "EncodedLength" {
 		var walk func(v ssa.Value)
 		walk = func(v ssa.Value) {
@@ -179,14 +182,23 @@ func codecSignature(p *Prog, fn *ssa.Function, partial *types.Named, version int
 				}
 			}
 		}
-		eachInstr(fn, func(in ssa.Instruction) {
-			if ret, ok := in.(*ssa.Return); ok && len(ret.Results) > 0 {
-				walk(ret.Results[0])
+		lenRoots = func() {
+			for _, f := range withCallees(p, fn, 3) {
+				if !inScope(f) {
+					continue
+				}
+				eachInstr(f, func(in ssa.Instruction) {
+					if ret, ok := in.(*ssa.Return); ok && len(ret.Results) > 0 {
+						if b, ok := ret.Results[0].Type().Underlying().(*types.Basic); ok && b.Info()&types.IsInteger != 0 {
+							walk(ret.Results[0])
+						}
+					}
+				})
 			}
-		})
+		}
 	}
 	s.OnInstr = func(st *State, in ssa.Instruction) {
-		if in.Parent() != fn {
+		if !inScope(in.Parent()) {
 			return
 		}
 		b := in.Block()
@@ -225,8 +237,16 @@ func codecSignature(p *Prog, fn *ssa.Function, partial *types.Named, version int
 	}
 	// helpers the per-child (or per-field) work was moved into are looked through: functions of
 	// package codecs that are handed, or return, a piece of the partial message
-	structural := func(h *ssa.Function) bool {
-		if h == nil || h == fn || h.Blocks == nil || h.Parent() != nil || h.Pkg == nil || h.Pkg.Pkg.Path() != pkgPath("codecs") {
+	structural = func(h *ssa.Function) bool {
+		if h == nil || h == fn || h.Blocks == nil || h.Parent() != nil {
+			return false
+		}
+		// (an instance of a generic helper belongs to the package of the generic function)
+		hp := h.Pkg
+		if og := h.Origin(); og != nil {
+			hp = og.Pkg
+		}
+		if hp == nil || hp.Pkg.Path() != pkgPath("codecs") {
 			return false
 		}
 		mentions := func(t types.Type) bool {
@@ -248,8 +268,18 @@ func codecSignature(p *Prog, fn *ssa.Function, partial *types.Named, version int
 				return true
 			}
 		}
+		// a method of the partial message itself, a generic helper instantiated with it
+		if sig.Recv() != nil && mentions(sig.Recv().Type()) {
+			return true
+		}
+		for _, ta := range h.TypeArgs() {
+			if mentions(ta) {
+				return true
+			}
+		}
 		return false
 	}
+	lenRoots()
 	prevInline := s.Inline
 	s.Inline = func(f *ssa.Function) bool { return structural(f) || (prevInline != nil && prevInline(f)) }
 	s.Model = func(sm *Sim, st *State, call ssa.CallInstruction, callee *ssa.Function) []*State {
@@ -339,7 +369,7 @@ func codecSignature(p *Prog, fn *ssa.Function, partial *types.Named, version int
 	// only the arm handling the partial message type
 	s.OnBranch = func(st *State, cond ssa.Value, truth bool) {
 		if ex, ok := cond.(*ssa.Extract); ok {
-			if ta, ok := ex.Tuple.(*ssa.TypeAssert); ok && ta.Parent() == fn && namedOf(ta.AssertedType) == partial {
+			if ta, ok := ex.Tuple.(*ssa.TypeAssert); ok && inScope(ta.Parent()) && namedOf(ta.AssertedType) == partial {
 				st.aux["arm"] = fmt.Sprint(truth)
 			}
 		}
@@ -402,6 +432,11 @@ func checkC11(p *Prog, r *Report) {
 		"the opaque remainder (flags, values, paging state ...) which is copied verbatim")
 	codecLayouts(p, r, "C11")
 	readerPosition(p, r, "C11.reader-position")
+	resultThreading(p, r, "C11.result-threading", "codecs")
+	// the partial codecs decode bytes a peer chose: no index or slice without an established bound
+	panicFree(p, r, "C11.panic-free", codecEntryPoints(p), func(fn *ssa.Function) bool {
+		return pkgOfFn(fn) != nil && pkgOfFn(fn).Pkg.Path() == pkgPath("codecs")
+	})
 }
 
 // codecLayouts holds the layout/error/registration rules (also used by C12 and C03,
@@ -427,7 +462,7 @@ func codecLayouts(p *Prog, r *Report, pfx string) {
 	}
 	type spec struct {
 		codec, msg string
-		expect    func(method string, rmi bool) []string // acceptable signatures
+		expect     func(method string, rmi bool) []string // acceptable signatures
 	}
 	ann := func(method, dec, enc string) string {
 		switch method {
@@ -608,7 +643,6 @@ func codecLayouts(p *Prog, r *Report, pfx string) {
 		fmt.Sprintf("only %d of the proxy's raw codecs (plain, lz4, snappy) are built from CustomMessageCodecs", uses))
 }
 
-
 // c11SkipValue: the helper that skips a batch child's [value] accepts every
 // length the protocol allows: n >= 0 bytes follow for n > 0, nothing follows for
 // 0, -1 (null) and -2 (unset); it must not fail for any of them.
@@ -698,4 +732,24 @@ func c11SkipValue(p *Prog, r *Report, pfx string) {
 		}
 	}
 	r.check(len(bad) == 0, rule, "codecs."+fn.Name(), p.Pos(fn.Pos()), "lengths -2^31,-3,-2,-1,0,1,7,2^20 folded", strings.Join(dedupe(bad), " || "))
+}
+
+// codecEntryPoints: the Decode/Encode/EncodedLength methods of the partial codecs.
+func codecEntryPoints(p *Prog) []*ssa.Function {
+	var out []*ssa.Function
+	for _, fn := range p.ScopedFuncs("codecs") {
+		if fn.Parent() != nil || fn.Signature.Recv() == nil {
+			continue
+		}
+		switch fn.Name() {
+		case "Decode", "Encode", "EncodedLength":
+			if rn := recvNamed(fn); rn != nil && strings.HasPrefix(rn.Obj().Name(), "partial") {
+				out = append(out, fn)
+			}
+		}
+	}
+	if len(out) < 3 {
+		fatalf("anchor: only %d Decode/Encode/EncodedLength methods of partial codecs found", len(out))
+	}
+	return out
 }
